@@ -36,6 +36,7 @@ type seqStep struct {
 	Goos             string    `json:"goos"`
 	Goarch           string    `json:"goarch"`
 	IsDir            bool      `json:"isdir"`
+	Debug            bool      `json:"isdebug"`
 	Invoke           bool      `json:"invoke"` // mage.Invoke with List instead of mage.Magefiles
 }
 
@@ -83,10 +84,10 @@ func runSeq(q seqReq) interface{} {
 		res := seqRes{Files: []string{}}
 		if st.Invoke {
 			so, se := &bytes.Buffer{}, &bytes.Buffer{}
-			res.Rc = mage.Invoke(mage.Invocation{Dir: q.Dir, WorkDir: q.Dir, List: true, Stdout: so, Stderr: se, Stdin: &bytes.Buffer{}, CacheDir: q.Cache, GoCmd: "go"})
+			res.Rc = mage.Invoke(mage.Invocation{Dir: q.Dir, WorkDir: q.Dir, List: true, Debug: st.Debug, Stdout: so, Stderr: se, Stdin: &bytes.Buffer{}, CacheDir: q.Cache, GoCmd: "go"})
 			res.Stdout, res.Stderr = so.String(), se.String()
 		} else {
-			files, err := mage.Magefiles(q.Dir, st.Goos, st.Goarch, "go", &bytes.Buffer{}, st.IsDir, false)
+			files, err := mage.Magefiles(q.Dir, st.Goos, st.Goarch, "go", &bytes.Buffer{}, st.IsDir, st.Debug)
 			if err != nil {
 				res.Err = err.Error()
 			}
@@ -105,6 +106,7 @@ type magefilesReq struct {
 	Goos   string `json:"goos"`
 	Goarch string `json:"goarch"`
 	IsDir  bool   `json:"isdir"` // isMagefilesDirectory
+	Debug  bool   `json:"isdebug"`
 }
 
 type magefilesRes struct {
@@ -125,7 +127,7 @@ func init() {
 			}
 		}
 		stderr := &bytes.Buffer{}
-		files, err := mage.Magefiles(q.Dir, q.Goos, q.Goarch, "go", stderr, q.IsDir, false)
+		files, err := mage.Magefiles(q.Dir, q.Goos, q.Goarch, "go", stderr, q.IsDir, q.Debug)
 		res := magefilesRes{Files: []string{}, Dirs: []string{}}
 		if err != nil {
 			res.Err = err.Error()
